@@ -301,7 +301,7 @@ class Harness:
             goal = z3.BoolVal(False)
         else:
             goal = bool_z(cond)
-        v = solve.prove(ctx.all_facts(), goal)
+        v = solve.prove(ctx.all_facts(), goal, generic_inputs=list(ctx.inputs.values()))
         inputs = {}
         if v.status == "refuted" and v.model is not None:
             for name, c in ctx.inputs.items():
@@ -332,6 +332,37 @@ class Harness:
         if self.mode == "sym":
             f = fn.__func__ if isinstance(fn, types.MethodType) else fn
             self.ctx.overrides[id(f)] = replacement
+
+    def capture_args(self, owner, name, run, result=None):
+        """Run `run()` with `owner.name` replaced by a recorder; -> list of (args, kwargs) it was called with.
+
+        Used to get hold of callbacks that the real code creates as nested functions (e.g. the
+        closures handed to SVGPath.walk) so that they can be put under contract on their own."""
+        calls = []
+        target = owner.__dict__[name] if isinstance(owner, type) else getattr(owner, name)
+        if self.mode == "sym":
+            f = target.__func__ if isinstance(target, (staticmethod, classmethod)) else target
+
+            def rec(I, *a, **k):
+                calls.append((a, k))
+                return result(*a, **k) if callable(result) else result
+
+            self.ctx.overrides[id(f)] = rec
+            try:
+                run()
+            finally:
+                del self.ctx.overrides[id(f)]
+        else:
+            def rec(*a, **k):
+                calls.append((a, k))
+                return result(*a, **k) if callable(result) else result
+
+            setattr(owner, name, rec)
+            try:
+                run()
+            finally:
+                setattr(owner, name, target)
+        return calls
 
     def trig(self, x):
         if self.mode == "sym":
